@@ -242,22 +242,65 @@ func (o grepOpts) criteria() int {
 	return n
 }
 
-func evalExpr(e string, r irec) bool {
-	var op string
-	var n int
-	fmt.Sscanf(e, "annotations.count %s %d", &op, &n)
-	c := r.count()
+// Boolean expressions of -p: drawn from a small grammar over what every generated record
+// carries (count, sample, length); the closure is the reference meaning of the text.
+var exprFns = map[string]func(irec) bool{}
+
+func cmpInt(op string, a, b int) bool {
 	switch op {
 	case ">":
-		return c > n
+		return a > b
 	case ">=":
-		return c >= n
+		return a >= b
 	case "<":
-		return c < n
+		return a < b
+	case "<=":
+		return a <= b
 	case "==":
-		return c == n
+		return a == b
+	case "!=":
+		return a != b
 	}
 	return false
+}
+
+func drawAtom(t *simrt.Tape) (string, func(irec) bool) {
+	ops := []string{">", ">=", "<", "==", "<=", "!="}
+	switch t.Choose(4) {
+	case 0, 1:
+		op, n := ops[t.Choose(4)], 1+t.Choose(5)
+		return fmt.Sprintf("annotations.count %s %d", op, n), func(r irec) bool { return cmpInt(op, r.count(), n) }
+	case 2:
+		op, n := ops[t.Choose(6)], 8+t.Choose(80)
+		return fmt.Sprintf("sequence.Len() %s %d", op, n), func(r irec) bool { return cmpInt(op, len(r.Seq), n) }
+	default:
+		v := fmt.Sprintf("s%d", t.Choose(3))
+		if t.Choose(2) == 1 {
+			return fmt.Sprintf("annotations.sample != %q", v), func(r irec) bool { return r.Annot["sample"] != v }
+		}
+		return fmt.Sprintf("annotations.sample == %q", v), func(r irec) bool { return r.Annot["sample"] == v }
+	}
+}
+
+func drawExpr(t *simrt.Tape) string {
+	at, af := drawAtom(t)
+	text, fn := at, af
+	switch t.Choose(5) {
+	case 1:
+		bt, bf := drawAtom(t)
+		text, fn = at+" && "+bt, func(r irec) bool { return af(r) && bf(r) }
+	case 2:
+		bt, bf := drawAtom(t)
+		text, fn = at+" || "+bt, func(r irec) bool { return af(r) || bf(r) }
+	case 3:
+		text, fn = "!("+at+")", func(r irec) bool { return !af(r) }
+	}
+	exprFns[text] = fn
+	return text
+}
+
+func evalExpr(e string, r irec) bool {
+	return exprFns[e](r)
 }
 
 // satisfies: every requested criterion holds for the record.
@@ -420,7 +463,7 @@ func drawGrepOpts(t *simrt.Tape, recs []Rec) grepOpts {
 			}
 			o.IDList = append(o.IDList, "not-an-id")
 		case 10:
-			o.Expr = append(o.Expr, fmt.Sprintf("annotations.count %s %d", []string{">", ">=", "<", "=="}[t.Choose(4)], 1+t.Choose(5)))
+			o.Expr = append(o.Expr, drawExpr(t))
 		}
 	}
 	// -a with the same key twice is a map on the command line: keep one per key
@@ -1108,7 +1151,7 @@ func init() {
 		Random: func(tier string) int { return map[string]int{"quick": 420, "thorough": 30000}[tier] },
 		Run:    runC16,
 		Level:  "exploration",
-		Rule:   "each case = generated records and a drawn subset of options (single options, pairs, larger subsets; repeatable options 1-3 times; length and count values at and around existing values) for obigrep (-l -L -c -C -s -D -I -A -a --id-list -p 'annotations.count OP N' -v --save-discarded, and --paired-with x --paired-mode forward/reverse/and/or/andnot/xor), obiannotate (--clear --set-identifier --delete-tag -k -R --length -S --cut), obidistribute (-c -p --na-value --batches --hash -Z --fasta-output, and a second run with -A on existing files) and obimultiplex -u, run through the real main of the command in a child process under a drawn --max-cpu / --batch-size / schedule / pool policy; a reference interpreter of the options' documented meaning computes the kept records, the discarded records, the edited records, the output file of each record and the mate ranks. distinct = distinct (command, option vector, configuration, schedule signature); non-trivial = at least one step with >=2 runnable tasks",
+		Rule:   "each case = generated records and a drawn subset of options (single options, pairs, larger subsets; repeatable options 1-3 times; length and count values at and around existing values) for obigrep (-l -L -c -C -s -D -I -A -a --id-list -p with comparisons of annotations.count, annotations.sample and sequence.Len() joined by && || ! -v --save-discarded, and --paired-with x --paired-mode forward/reverse/and/or/andnot/xor), obiannotate (--clear --set-identifier --delete-tag -k -R --length -S --cut), obidistribute (-c -p --na-value --batches --hash -Z --fasta-output, and a second run with -A on existing files) and obimultiplex -u, run through the real main of the command in a child process under a drawn --max-cpu / --batch-size / schedule / pool policy; a reference interpreter of the options' documented meaning computes the kept records, the discarded records, the edited records, the output file of each record and the mate ranks. distinct = distinct (command, option vector, configuration, schedule signature); non-trivial = at least one step with >=2 runnable tasks",
 		Real:   []string{"the real mains of obigrep, obiannotate, obidistribute, obimultiplex", "obiseq predicates, workers, expression language", "obiiter FilterOn / DivideOn / Distribute / PairTo", "WriterDispatcher and the writers on real files"},
 		Stub:   []string{"sync primitives, pools, scheduler (simrt)", "process exit (captured)", "the reference interpreter stands for the documentation of the options (stated subset only: no --aho-corasick, --pattern, taxonomy options, scripts)"},
 	})
